@@ -16,7 +16,7 @@ Local Open Scope string_scope.
 (* ------------------------------------------------------------------------------------------ *)
 (** * Results *)
 
-Inductive exc := EValue | EType | EAttribute | EOverflow.   (* ValueError TypeError AttributeError OverflowError *)
+Inductive exc := EValue | EType | EAttribute | EOverflow | EKey.   (* ValueError TypeError AttributeError OverflowError KeyError *)
 
 Inductive res (A : Type) := Ok (a : A) | Raise (k : exc) | Unmodelled.
 Arguments Ok {A} a.
@@ -595,6 +595,152 @@ Definition compare_recursive (o : cropts) (e c : tree) : res bool :=
     Ok (is_nil (prune (fun n => existsb (fun fg => matches fg n) (map rootify (forgive o))) errs1)))).
 
 (* ------------------------------------------------------------------------------------------ *)
+(** * compare_molrecs (relative_geoms="exact") and ProtoModel.compare *)
+
+(** massage_dicts: the normalisation applied to a deep copy of each molecule record before compare_recursive *)
+
+(** [str(f) for f in dicary["fragment_files"]] — only str entries are modelled *)
+Fixpoint norm_files (l : list tree) : res (list tree) :=
+  match l with
+  | [] => Ok []
+  | TSc _ (SStr s) :: r => bind (norm_files r) (fun r' => Ok (TSc false (SStr s) :: r'))
+  | _ => Unmodelled
+  end.
+
+(** [(s if s is None else int(s)) for s in dicary["fragment_separators"]] — None, bool and (numpy) int entries *)
+Definition norm_sep (s : scalar) : option tree :=
+  match s with
+  | SNone => Some (TSc false SNone)
+  | SInt z => Some (TSc false (SInt z))
+  | SBool b => Some (TSc false (SInt (b2z b)))
+  | _ => None
+  end.
+
+Fixpoint norm_seps (l : list scalar) : res (list tree) :=
+  match l with
+  | [] => Ok []
+  | s :: r => match norm_sep s with
+              | Some t => bind (norm_seps r) (fun r' => Ok (t :: r'))
+              | None => Unmodelled
+              end
+  end.
+
+Fixpoint scalars_of (l : list tree) : option (list scalar) :=
+  match l with
+  | [] => Some []
+  | TSc _ s :: r => match scalars_of r with Some r' => Some (s :: r') | None => None end
+  | _ => None
+  end.
+
+Definition norm_separators (v : tree) : res tree :=
+  match v with
+  | TList l => match scalars_of l with
+               | Some ss => bind (norm_seps ss) (fun r => Ok (TList r))
+               | None => Unmodelled
+               end
+  | TArr DInt [_] data => bind (norm_seps data) (fun r => Ok (TList r))
+  | _ => Unmodelled
+  end.
+
+(** dicary["provenance"].pop("version") *)
+Fixpoint remove_key (k : string) (d : list (string * tree)) : list (string * tree) :=
+  match d with
+  | [] => []
+  | (k', v) :: r => if String.eqb k k' then r else (k', v) :: remove_key k r
+  end.
+
+Definition norm_provenance (popv : bool) (v : tree) : res tree :=
+  if popv then
+    match v with
+    | TDict d => if smem "version" (keys d) then Ok (TDict (remove_key "version" d)) else Raise EKey
+    | _ => Unmodelled
+    end
+  else Ok v.
+
+(** (min(at1, at2), max(at1, at2), bo): min / max return their FIRST argument on ties *)
+Definition bond_key (t : tree) : option Z :=
+  match t with
+  | TList (TSc _ (SInt a) :: _) => Some a
+  | _ => None
+  end.
+
+Definition norm_bond (t : tree) : option tree :=
+  match t with
+  | TList [TSc na (SInt a); TSc nb (SInt b); bo] =>
+      let x := TSc na (SInt a) in
+      let y := TSc nb (SInt b) in
+      Some (TList [if (b <? a)%Z then y else x; if (a <? b)%Z then y else x; bo])
+  | _ => None
+  end.
+
+Fixpoint norm_bonds (l : list tree) : option (list tree) :=
+  match l with
+  | [] => Some []
+  | t :: r => match norm_bond t, norm_bonds r with
+              | Some t', Some r' => Some (t' :: r')
+              | _, _ => None
+              end
+  end.
+
+Definition key_of (t : tree) : Z := match bond_key t with Some z => z | None => 0%Z end.
+
+(** conn.sort(key=lambda tup: tup[0]) — stable *)
+Fixpoint insert_bond (x : tree) (s : list tree) : list tree :=
+  match s with
+  | [] => [x]
+  | y :: s' => if (key_of x <=? key_of y)%Z then x :: y :: s' else y :: insert_bond x s'
+  end.
+
+Fixpoint sort_bonds (l : list tree) : list tree :=
+  match l with
+  | [] => []
+  | x :: r => insert_bond x (sort_bonds r)
+  end.
+
+Definition norm_connectivity (v : tree) : res tree :=
+  match v with
+  | TList l => match norm_bonds l with
+               | Some l' => Ok (TList (sort_bonds l'))
+               | None => Unmodelled
+               end
+  | _ => Unmodelled
+  end.
+
+Definition norm_files_v (v : tree) : res tree :=
+  match v with
+  | TList l => bind (norm_files l) (fun r => Ok (TList r))
+  | _ => Unmodelled
+  end.
+
+(** one pass over the top-level keys (assignment to an existing key keeps its position) *)
+Fixpoint massage_items (popv : bool) (d : list (string * tree)) : res (list (string * tree)) :=
+  match d with
+  | [] => Ok []
+  | (k, v) :: r =>
+      bind (if String.eqb k "fragment_files" then norm_files_v v
+            else if String.eqb k "fragment_separators" then norm_separators v
+            else if String.eqb k "provenance" then norm_provenance popv v
+            else if String.eqb k "connectivity" then norm_connectivity v
+            else Ok v) (fun v' =>
+      bind (massage_items popv r) (fun r' => Ok ((k, v') :: r')))
+  end.
+
+(** [popv] = the version entry of provenance is popped (true in the code; false is used to state idempotence:
+    a second pop would raise KeyError by construction) *)
+Definition massage (popv : bool) (t : tree) : res tree :=
+  match t with
+  | TDict d => bind (massage_items popv d) (fun d' => Ok (TDict d'))
+  | _ => Unmodelled
+  end.
+
+Definition compare_molrecs (o : cropts) (e c : tree) : res bool :=
+  bind (massage true e) (fun e' => bind (massage true c) (fun c' => compare_recursive o e' c')).
+
+(** ProtoModel.compare(self, other, **kwargs) = compare_recursive(self, other, **kwargs); _compare_recursive first
+    replaces a model by its .dict(): a model is represented by the tree of that dict *)
+Definition protomodel_compare (o : cropts) (self other : tree) : res bool := compare_recursive o self other.
+
+(* ------------------------------------------------------------------------------------------ *)
 (** * _handle_return and the reporting options *)
 
 Record ropts := { quiet : bool; return_message : bool }.
@@ -623,18 +769,20 @@ Definition compare_recursive_full {R} (H : bool -> ropts -> R) (ro : ropts) (o :
 Inductive query :=
 | QValues (o : cvopts) (e c : tree)
 | QCompare (phase : bool) (e c : tree)
-| QRec (o : cropts) (e c : tree).
+| QRec (o : cropts) (e c : tree)
+| QMol (o : cropts) (e c : tree).
 
 Definition run (q : query) : res bool :=
   match q with
   | QValues o e c => compare_values o e c
   | QCompare ph e c => compare ph e c
   | QRec o e c => compare_recursive o e c
+  | QMol o e c => compare_molrecs o e c
   end.
 
 Definition exc_eqb (a b : exc) : bool :=
   match a, b with
-  | EValue, EValue | EType, EType | EAttribute, EAttribute | EOverflow, EOverflow => true
+  | EValue, EValue | EType, EType | EAttribute, EAttribute | EOverflow, EOverflow | EKey, EKey => true
   | _, _ => false
   end.
 
